@@ -96,11 +96,13 @@ def afterEnd (op result streamState : String) : List Viol :=
     `goaway-remote` with `resultCode`, anything else = an error of our own / of the transport).
     A result that blames the peer must name a code the peer sent, and when the peer's LAST word was an
     error the connection must not finish as if nothing had happened. -/
-def connResult (codes : List Nat) (result : String) (resultCode : Nat) : List Viol :=
+def connResult (codes : List Nat) (result : String) (resultCode : Nat) (errorNoted : Bool := true) : List Viol :=
   (if result == "goaway-remote" && !codes.contains resultCode then
     ["C15 connection-result-reports-a-code-the-peer-never-sent"] else []) ++
+  -- `errorNoted`: the endpoint had read that GOAWAY (it is in `ConnectionInner::error` before the last poll); a
+  -- GOAWAY still unread when the endpoint closed for reasons of its own (idle client) cannot be reported
   (match codes.getLast? with
-   | some c => if c ≠ 0 && result == "done" then ["C15 connection-result-hides-the-peers-GOAWAY-error"] else []
+   | some c => if c ≠ 0 && result == "done" && errorNoted then ["C15 connection-result-hides-the-peers-GOAWAY-error"] else []
    | none => [])
 
 /-- C17: an I/O failure of the transport surfaces on the handles as it was: a handle that reports an I/O
